@@ -218,8 +218,13 @@ class _FileWriteWith(Generic[_WT]):
         path = self._path
         cls = self._cls
         await self._acquire_lock()
-        self._exists = cls.file_exists(path)
-        self._obj = obj = cls.file_read(path)
+        try:
+            self._exists = cls.file_exists(path)
+            self._obj = obj = cls.file_read(path)
+        except BaseException:
+            # __aexit__ is not called when __aenter__ raises
+            await self._release_lock()
+            raise
         obj._watched = True
         return obj
 
